@@ -103,7 +103,7 @@ class FnInfo(object):
         self.rust_ret = rust_ret
 
     def state_params(self):
-        return [p for p in self.params if p[1] in ("selfmut", "selfrecmut", "buf", "writer", "mutval") or p[1].startswith("struct:")]
+        return [p for p in self.params if p[1] in ("selfmut", "selfrecmut", "buf", "writer", "mutval") or p[1].startswith("struct:") or p[1].startswith("recmut:")]
 
 
 class Tr(object):
@@ -166,6 +166,8 @@ class Tr(object):
                 out.extend([cn(pn) + "_avail", cn(pn) + "_out"])
             elif pk == "mutval":
                 out.append(cn(pn))
+            elif pk.startswith("recmut:"):
+                out.extend("%s_%s" % (cn(pn), f) for f, _ in SELF_RECORDS[pk[7:]])
         return out
 
     def bind(self, env, name, b):
@@ -503,6 +505,8 @@ class Tr(object):
             base = self.iter_base(recv, env)
             return "(%s %s %s)" % ("forallb" if name == "all" else "existsb", self.closure1(args[0], env), base)
         if name == "len" and not args:
+            if recv[0] == "path" and len(recv[1]) == 1 and recv[1][0] in env and env[recv[1][0]].kind == "writer":
+                return "(len %s)" % env[recv[1][0]].fields["out"]
             if recv[0] == "path" and len(recv[1]) == 1 and recv[1][0] in env and env[recv[1][0]].kind == "view":
                 b = env[recv[1][0]]
                 return "(N.sub (len %s) %s)" % (b.coq, b.off)
@@ -526,7 +530,9 @@ class Tr(object):
             return self.pure(recv, env)
         if name == "available" and not args and recv[0] == "path" and recv[1][0] in env and env[recv[1][0]].kind == "writer":
             return env[recv[1][0]].fields["avail"]
-        if name in self.cfg.get("methods", {}) and not self.known_fn(self.ty_of(recv, env), name):
+        if name == "len" and not args and recv[0] == "path" and recv[1][0] in env and env[recv[1][0]].kind == "writer":
+            return "(len %s)" % env[recv[1][0]].fields["out"]
+        if name in self.cfg.get("methods", {}):
             return "(%s %s)" % (self.cfg["methods"][name], " ".join([self.pure(recv, env)] + [self.pure(a, env) for a in args]))
         if name in ("is_err", "is_none") and not args and recv[0] == "mcall" and recv[2] == "to_str":
             return "(match %s with Some _ => false | None => true end)" % self.pure(recv, env)
@@ -564,8 +570,9 @@ class Tr(object):
         raise Unsupported("method call .%s(..)" % name)
 
     def recv_value(self, recv, env, fi):
-        if recv == ("path", ["self"]) and "self" in env and env["self"].kind == "selfrec":
-            return " ".join(env["self"].fields[f] for f in env["self"].fields)
+        if recv[0] == "path" and len(recv[1]) == 1 and recv[1][0] in env and env[recv[1][0]].kind == "selfrec":
+            b = env[recv[1][0]]
+            return " ".join(b.fields[f] for f in b.fields)
         return self.pure(recv, env)
 
     def iter_base(self, recv, env):
@@ -822,7 +829,7 @@ class Tr(object):
                 binders.append(b.coq)
                 after.append(("alias", a0[1][0]))
             elif pk == "selfrecmut":
-                b = env["self"]
+                b = env[a0[1][0]] if a0[0] == "path" and a0[1][0] in env and env[a0[1][0]].kind == "selfrec" else env["self"]
                 names = [b.fields[f] for f in b.fields]
                 supplied.extend(names)
                 binders.extend(names)
@@ -1080,6 +1087,16 @@ class Tr(object):
             return nxt(self.bind(env, name, B("view", b.coq, off=off)))
         structs = dict(STRUCTS)
         structs.update(self.cfg.get("structs", {}))
+        if x[0] == "mcall" and x[2] == "unwrap" and not x[3] and x[1][0] == "mcall" and x[1][2] in ("as_mut", "as_ref") and not x[1][3]:
+            pl = self.place_of(x[1][1], env)
+            inner = x[1][1]
+            if pl is not None and inner[0] == "path":
+                ob = env[inner[1][0]]
+                pty = (ob.ty or "")[len("Option<"):-1] if (ob.ty or "").startswith("Option<") else None
+                c = cn(name)
+                nb = B("alias", c, ty=pty, mutable=True, place=pl[0], ctor="Some", place_b=pl[1])
+                return "match %s with Some %s => %s | None => Panic \"%s: unwrap() of None in %s\" end" % (
+                    pl[0], c, nxt(self.bind(env, name, nb)), self.cfg["file"], self.cfg["rust"])
         if x[0] == "struct" and x[1] in structs:
             fields = dict(x[2])
             if sorted(fields) != sorted(structs[x[1]]):
@@ -1602,6 +1619,22 @@ FLOWFUNCS = [
                 "resp_get_content_length", "resp_text_lookup"],
          known_res=[("for_response", "gen_br_for_response", 4)],
          rust_ret="Result<Option<(usize, Response<()>)>, Error>"),
+    dict(coq="gen_call_read", file="src/client/call.rs", impl=r"impl<B>\s+Call<RecvBody,\s*B>", rust="read",
+         subst=[(r"self\.state\.", "state_")],
+         params=[("state_reader", "mutval", "option reader", "Option<BodyReader>"), ("state_stop_on_chunk_boundary", "val", "bool", None),
+                 ("input", "val", "bytes", None), ("output", "buf", "bytes", None)],
+         rust_ret="Result<(usize, usize), Error>"),
+    dict(coq="gen_call_direct_write", file="src/client/call.rs", impl=r"impl<B>\s+Call<WithBody,\s*B>", rust="consume_direct_write",
+         subst=[(r"self\.state\.writer", "writer")],
+         params=[("writer", "recmut:BodyWriter", "", None), ("amount", "val", "N", None)],
+         rust_ret="Result<(), Error>"),
+    dict(coq="gen_call_write_body", file="src/client/call.rs", impl=r"impl<B>\s+Call<WithBody,\s*B>", rust="write",
+         subst=[(r"self\.analyze_request\(\)\?;", ""), (r"let mut w = Writer::new\(output\);", ""), (r"self\.is_prelude\(\)", "is_prelude"),
+                (r"self\.is_body\(\)", "is_body"), (r"try_write_prelude\(&self\.request, &mut self\.state, &mut w\)\?;", "prelude_result?;"),
+                (r"self\.state\.writer", "writer")],
+         params=[("writer", "recmut:BodyWriter", "", None), ("is_prelude", "val", "bool", None), ("is_body", "val", "bool", None),
+                 ("prelude_result", "val", "res unit", "res"), ("input", "val", "bytes", None), ("w", "writer", "", None)],
+         rust_ret="Result<(usize, usize), Error>"),
     # src/client/amended.rs: the request analysis (what makes a request invalid, and the framing of its body); the two header accessors
     # are function parameters, version and method are values
     dict(coq="gen_analyze", file="src/client/amended.rs", impl=r"impl<Body>\s+AmendedRequest<Body>", rust="analyze",
@@ -1618,7 +1651,7 @@ FLOWFUNCS = [
 ]
 
 
-def translate_custom(text, cfg):
+def translate_custom(text, cfg, known_all=None):
     sig, body = find_fn_in_impl(text, cfg["impl"], cfg["rust"])
     for rx, rep in cfg["subst"]:
         body, n = re.subn(rx, rep, body)
@@ -1634,15 +1667,36 @@ def translate_custom(text, cfg):
     known = dict(((None, n), FnInfo(n, [("r", "val", "")], "plain")) for n in cfg.get("known", []))
     for rust, coq, arity in cfg.get("known_res", []):
         known[(None, rust)] = FnInfo(coq, [("a%d" % i, "val", "") for i in range(arity)], "res")
+    if known_all:
+        for key, fi in known_all.items():
+            known.setdefault(key, fi)
     tr = Tr(cfg, {}, known)
     tr.info = info
     tr.types = {}
     env = {"__order__": []}
     binders = []
     for n, k, t, ty in cfg["params"]:
-        env = tr.bind(env, n, B("val", cn(n), ty=ty, mutable=(k == "mutval")))
-        binders.append("(%s : %s)" % (cn(n), t))
-        tr.types[cn(n)] = t
+        c = cn(n)
+        if k == "buf":
+            env = tr.bind(env, n, B("buf", c + "_buf"))
+            binders.append("(%s_buf : bytes)" % c)
+            tr.types[c + "_buf"] = "bytes"
+        elif k == "writer":
+            env = tr.bind(env, n, B("writer", fields={"avail": c + "_avail", "out": c + "_out"}))
+            binders.append("(%s_avail : N) (%s_out : bytes)" % (c, c))
+            tr.types[c + "_avail"] = "N"
+            tr.types[c + "_out"] = "bytes"
+        elif k.startswith("recmut:"):
+            fm = {}
+            for f, fty in SELF_RECORDS[k[7:]]:
+                fm[f] = "%s_%s" % (c, f)
+                binders.append("(%s_%s : %s)" % (c, f, COQ_TYPE[fty]))
+                tr.types["%s_%s" % (c, f)] = COQ_TYPE[fty]
+            env = tr.bind(env, n, B("selfrec", fields=fm, mutable=True, ty=k[7:]))
+        else:
+            env = tr.bind(env, n, B("val", c, ty=ty, mutable=(k == "mutval")))
+            binders.append("(%s : %s)" % (c, t))
+            tr.types[c] = t
     code = tr.stmts(blk[1], blk[2], env, None, tail_mode=True)
     return "\n".join(tr.aux + ["Definition %s %s :=\n  %s." % (cfg["coq"], " ".join(binders), code)])
 
@@ -1712,7 +1766,7 @@ def _generate(repo, base, force):
         try:
             if cfg["coq"] in force:
                 raise Unsupported(force[cfg["coq"]])
-            code = translate_custom(open(os.path.join(repo, cfg["file"])).read(), cfg)
+            code = translate_custom(open(os.path.join(repo, cfg["file"])).read(), cfg, known)
             chunks.append("(* %s :: fn %s (fields of self.inner as parameters) *)\n%s\n" % (cfg["file"], cfg["rust"], code))
             done.append(cfg["coq"])
             newbase[cfg["coq"]] = {"code": code, "params": [], "kind": "flags", "rust_ret": "", "calls": []}
